@@ -59,6 +59,10 @@ pub fn generate(check: &str, tier: &str, seed: u64, run: u64) -> Case {
     }
     let program = match check {
         "C08" if run % 6 == 3 => crate::gen::gen_wait_loops(&mut rng),
+        "C08" if run % 12 == 4 => crate::gen::gen_park_mp(&mut rng),
+        "C16" if run % 8 == 4 => crate::gen::gen_park_mp(&mut rng),
+        "C07" if run % 12 == 4 => crate::gen::gen_rw_overlap(&mut rng),
+        "C01" if run % 24 == 4 => crate::gen::gen_rw_overlap(&mut rng),
         "C05" if run % 12 == 3 => crate::gen::gen_wait_loops(&mut rng),
         "C03" if run % 12 == 5 => crate::gen::gen_many_stores_mp(&mut rng, false),
         "C04" if run % 12 == 5 => crate::gen::gen_many_stores_mp(&mut rng, true),
